@@ -59,6 +59,10 @@ def check_real(scenario, stats=None):
     sim = SE.run_case(scenario, {'kind': 'sequential'})
     SE.first_problem(SE.completion_problems(scenario, sim), scenario, {'kind': 'sequential'}, sim)
     probs = SE.real_session_problems(scenario, sim)
+    if probs is None:
+        if stats is not None:
+            stats.excluded['real-socket run stopped by the wall-clock safety net (skipped, not judged)'] += 1
+        return
     if probs:
         clause, detail = probs[0]
         raise Violation(clause, SE.case_of(scenario, {'kind': 'sequential'}, sim, {'real_sockets': True}), detail)
